@@ -25,6 +25,9 @@ TNext ==
     \/ Is("panicked") /\ P_Panicked(E.src) /\ open[E.src] = E.t
     \/ Is("poll_end") /\ P_PollEnd(E.src, E.prog)
     \/ Is("poll") /\ UNCHANGED pvars
+    \* building / dropping a trigger future is not a trigger: nothing the statement talks about changes
+    \/ Is("prep") /\ UNCHANGED pvars
+    \/ Is("drop_prep") /\ UNCHANGED pvars
 
 TSpec == TInit /\ [][TNext]_<<pvars, l>>
 
